@@ -184,6 +184,14 @@ def same_relation(found: ast.AST, expected_src: str) -> tuple[bool | None, dict]
 
     if symbols(f) == symbols(e):
         return False, slot
+    # a conjunction with extra conjuncts (stronger) / a disjunction with extra disjuncts (weaker) than the rule
+    fk = {a.key() for a in N.nf_atoms(f)}
+    ek = {a.key() for a in N.nf_atoms(e)}
+    kind_f = f[0] if isinstance(f, tuple) else "and"
+    kind_e = e[0] if isinstance(e, tuple) else kind_f
+    if kind_f == kind_e and ek < fk and all(isinstance(k, N.Atom) for k in (f[1] if isinstance(f, tuple) else [f])):
+        slot["relation"] = "stronger than the rule" if kind_f == "and" else "weaker than the rule"
+        return False, slot
     return None, slot
 
 
